@@ -241,6 +241,57 @@ def out_correspondence(ctx, n):
     ctx.extra['correspondence'] = {'out_sequences': len(cases), 'agree': agree}
 
 
+def variables_family(ctx):
+    """var() references with fallbacks, variables defined and undefined: with resolveVariables off the output reads
+    back as the DOM itself (references and fallbacks intact); with it on, a reference to a defined variable is replaced by
+    the value and nothing else changes; combined with layout preferences and the minified preset.  Search only."""
+    import cssutils
+    from harness import sem_dom as S
+    text = ('@variables { c: red; w: 1px }\n'
+            'b { color: var(c, blue); left: var(w, 2px); right: var(nope, 3px); top: var(w); bottom: var(nope2, var(w, 4px)); margin: var(w) var(w, 0) }\n'
+            '@media tv { d { color: var(c, green); width: var(nope3, 5%) } }')
+    resolved = ('b { color: red; left: 1px; right: var(nope, 3px); top: 1px; bottom: var(nope2, 1px); margin: 1px 1px }\n'
+                '@media tv { d { color: red; width: var(nope3, 5%) } }')
+    layouts = [{}, {'indent': ''}, {'spacer': ''}, {'propertyNameSpacer': ''}, {'listItemSpacer': ''}, {'omitLastSemicolon': False}, {'lineSeparator': ''}, 'minified']
+    try:
+        cssutils.ser.prefs.useDefaults()
+        dom = c03.parse(text)
+        sem_dom_ = S.sem_sheet(dom)
+        sem_res = S.sem_sheet(c03.parse(resolved))
+    except Exception as e:
+        ctx.violation('raises', {'text': text, 'family': 'variables'}, '%s: %s' % (type(e).__name__, e), KNOWN_PRED)
+        return
+    for lay in layouts:
+        for rv in (False, True):
+            case = {'text': text, 'prefs': dict(lay if isinstance(lay, dict) else {'preset': 'minified'}, resolveVariables=rv), 'family': 'variables'}
+            ctx.case((text, 'variables', repr(lay), rv))
+            try:
+                cssutils.ser.prefs.useDefaults()
+                if lay == 'minified':
+                    cssutils.ser.prefs.useMinified()
+                else:
+                    for k, v in lay.items():
+                        setattr(cssutils.ser.prefs, k, v)
+                cssutils.ser.prefs.resolveVariables = rv
+                out = dom.cssText
+                cssutils.ser.prefs.useDefaults()
+                cssutils.ser.prefs.resolveVariables = False
+                back = S.sem_sheet(c03.parse(out))
+            except Exception as e:
+                cssutils.ser.prefs.useDefaults()
+                ctx.violation('raises', case, '%s: %s' % (type(e).__name__, e), KNOWN_PRED)
+                continue
+            finally:
+                cssutils.ser.prefs.useDefaults()
+            want = sem_res if rv else sem_dom_
+            back = tuple(r for r in back if r[0] != 'other') if rv else back
+            want = tuple(r for r in want if r[0] != 'other') if rv else want
+            if back != want:
+                d = next((i for i, (x, y) in enumerate(zip(want, back)) if x != y), min(len(want), len(back)))
+                ctx.violation('effect', dict(case, output=out.decode('utf-8', 'replace')[:600]),
+                              'rule %d: expected %r\n got %r' % (d, want[d:d + 1], back[d:d + 1]), KNOWN_PRED)
+
+
 def run(ctx):
     import cssutils
     from harness import sem_dom as S
@@ -284,6 +335,16 @@ def run(ctx):
         doms.append((dom, dense, dom.cssText, S.sem_sheet(dom), nows_tokens(dom.cssText.decode('utf-8'))))
     except Exception as e:
         ctx.violation('raises', {'text': dense}, '%s: %s' % (type(e).__name__, e), KNOWN_PRED)
+    # calc() with every operator, also nested and with signed operands
+    calcs = ('a { width: calc(100% - 2px); height: calc(1px + 2px * 3 / 4); margin: calc( (1em + 2px) * 2 ) -1px; top: calc(1px + -2px); left: calc(2 * (3px - 1px)) }\n'
+             '@media tv { d { width: calc(50% + 1em) } }')
+    try:
+        dom = c03.parse(calcs)
+        cssutils.ser.prefs.useDefaults()
+        doms.append((dom, calcs, dom.cssText, S.sem_sheet(dom), nows_tokens(dom.cssText.decode('utf-8'))))
+    except Exception as e:
+        ctx.violation('raises', {'text': calcs}, '%s: %s' % (type(e).__name__, e), KNOWN_PRED)
+    variables_family(ctx)
     ALL = dict(LAYOUT)
     ALL.update(CONTENT)
     singles = [{k: v} for k, vs in ALL.items() for v in vs[1:]]
